@@ -35,7 +35,8 @@ var htmlVoid = []string{"br", "img", "input", "hr", "meta", "link", "wbr"}
 var htmlRaw = []string{"script", "style", "title", "textarea", "xmp", "iframe"}
 
 func htmlAttrName(r *rand.Rand) string {
-	names := []string{"id", "class", "href", "src", "data-x", "aria-label", "x", "checked", "disabled", "v-on:click", "on.click", "xml:lang", "a1", "_y", "value", "type"}
+	names := []string{"id", "class", "href", "src", "data-x", "aria-label", "x", "checked", "disabled", "v-on:click", "on.click", "xml:lang", "a1", "_y", "value", "type",
+		"[disabled]", "(click)", "[(ngmodel)]", "data-cell[0]", "@input", "#ref", "a{b}", "x^y", "z`", "q|r"}
 	return Pick(r, names)
 }
 
@@ -233,9 +234,9 @@ func HTMLDoc(r *rand.Rand, o HTMLOpts) (doc string, toks []XTok) {
 						if openScript {
 							continue
 						}
-						sb3.WriteString("<" + randCase(r, "script") + Pick(r, []string{">", " >", " a=b>", "/>"}) + htmlChars(r, []string{"a", " ", "x<y", "\"", "</b>"}, r.Intn(4)) + "</" + randCase(r, "script") + Pick(r, []string{">", " >"}))
+						sb3.WriteString("<" + randCase(r, "script") + Pick(r, []string{">", " >", " a=b>", "/>", "/src=x>", "/ defer>", "\t>", "\n>", "\f>"}) + htmlChars(r, []string{"a", " ", "x<y", "\"", "</b>", "--!>", "--!"}, r.Intn(4)) + "</" + randCase(r, "script") + Pick(r, []string{">", " >"}))
 					case 1:
-						sb3.WriteString(Pick(r, []string{"<scriptx>", "</scriptx>", "<script1", "</scrip>", "<b>", "- -", "->", "<!-"}))
+						sb3.WriteString(Pick(r, []string{"<scriptx>", "</scriptx>", "<script1", "</scrip>", "<b>", "- -", "->", "<!-", "--!>", "--!"}))
 					case 2:
 						// a nested <script that is never closed: the double-escape state ends with the comment
 						if !openScript {
